@@ -37,7 +37,7 @@ pub fn run(rep: &mut Report, tier: &str, seed: u64) {
     let pool = pool();
     for pi in 0..n_programs {
         let mut r = root.fork(pi as u64);
-        let opts = Opts { fragment: true, fault_pct: if pi % 3 == 2 { 100 } else { 0 }, max_stanzas: 5, allow_print: false, universal: r.chance(1, 2) };
+        let opts = Opts { fragment: true, fault_pct: if pi % 3 == 2 { 100 } else { 0 }, max_stanzas: 5, allow_print: false, universal: r.chance(1, 2), probe: false, scoped_heavy: false };
         let loaded = match gen_loaded(rep, &mut r, &pool, &opts) {
             Some(l) => l,
             None => continue,
@@ -48,10 +48,11 @@ pub fn run(rep: &mut Report, tier: &str, seed: u64) {
             drv.ask(&sexp::tagged("set-tree", vec![info.to_sexp(&source.src)]));
             rep.count_n("regex-oracle-questions", table.rx_asked + table.rp_asked);
             table = OracleTable::new();
+            table.arm_sets = crate::astx::scan_arm_sets(&loaded.file);
             let globals = supply_globals(&mut r, &loaded.program);
             let mut results = Vec::new();
             for lazy in [false, true] {
-                let cfg = RunCfg { lazy, globals: globals.clone(), debug: None, cancel_at: None };
+                let cfg = RunCfg { lazy, globals: globals.clone(), outer_globals: vec![], debug: None, cancel_at: None };
                 let ir = run_impl(&loaded.file, &source.tree, &source.src, &info, &cfg);
                 let model = run_model(&mut drv, &mut table, &mi, &cfg);
                 let class = outcome_class(&ir.outcome);
